@@ -319,6 +319,9 @@ After(e) ==
           <<timeoutSeen \/ e.a = 0, "C05", "iteration-started-after-return">>,
           <<timeoutSeen \/ e.b = 0, "C05", "iteration-still-running-after-return">>,
           <<timeoutSeen \/ e.c = 0, "C05", "progress-reported-after-return">>,
+          \* the same fact as C18 states it: the run stops its periodic runner before it returns, and once that Stop has
+          \* returned the runner's function is not executing and is never invoked again
+          <<timeoutSeen \/ e.c = 0, "C18", "periodic-function-still-executing-after-the-run-stopped-its-runner">>,
           <<timeoutSeen \/ e.d = 0, "C05", "goroutine-of-the-run-remains">>,
           <<e.b2 = "", "C15", "stage-parameters-left-in-environment">>,
           <<mS = ret.s /\ mF = ret.f /\ mD = ret.d, "C16", "exported-iteration-samples-differ-from-result">>,
@@ -426,6 +429,7 @@ OK_C05 == Holds("C05")
 OK_C06 == Holds("C06")
 OK_C07 == Holds("C07")
 OK_C09 == Holds("C09")
+OK_C18 == Holds("C18")
 OK_C15 == Holds("C15")
 OK_C16 == Holds("C16")
 OK_C19 == Holds("C19")
